@@ -240,6 +240,12 @@ def _subclass(cls, t):
         return issubclass(cls, table[n])
     if t[0] in ("Union", "Or"):
         return _any([_subclass(cls, t[1]), _subclass(cls, t[2])])
+    # a parameterised generic under Type[...]: the subclass relation is with the underlying class (the element
+    # types cannot be judged for a class)
+    origin = {"List": list, "list": list, "Set": set, "set": set, "Dict": dict, "dict": dict, "TupleVar": tuple, "tuplevar": tuple,
+              "Tuple2": tuple, "tuple2": tuple}.get(t[0])
+    if origin is not None:
+        return issubclass(cls, origin)
     raise ValueError(t)
 
 
@@ -428,6 +434,9 @@ def type_arg_terms():
     """arguments allowed under Type[...]: class atoms, Any, unions of two class atoms"""
     out = [["atom", a] for a in CLASS_ATOMS + ["Any"]]
     out += [["Union", ["atom", a], ["atom", b]] for a, b in (("int", "str"), ("U", "S"), ("bool", "bytes"))]
+    # parameterised generics (issubclass itself refuses them)
+    out += [["List", ["atom", "int"]], ["list", ["atom", "str"]], ["Dict", ["atom", "str"], ["atom", "int"]], ["TupleVar", ["atom", "int"]],
+            ["set", ["atom", "int"]], ["tuple2", ["atom", "int"], ["atom", "str"]]]
     return out
 
 
@@ -492,7 +501,7 @@ def position_class(v, t):
     return k
 
 
-def check_pair(t, T, v, vi, out, C):
+def check_pair(t, T, v, vi, out, C, after=None):
     from spec_classes.utils.type_checking import check_type
 
     exp = conforms(v, t)
@@ -507,7 +516,7 @@ def check_pair(t, T, v, vi, out, C):
             violation(PROP, {"kind": "raises", "cons": t[0], "inner": t[1][0] if len(t) > 1 and isinstance(t[1], list) else None,
                              "exc": type(raised).__name__, "term": label(t) if len(label(t)) < 40 else t[0]},
                       {"term": label(t), "value": repr(v)[:100], "raised": repr(raised)[:200], "expected": exp},
-                      {"term": t, "vi": vi})
+                      {"term": t, "vi": vi, "after": after})
         )
         return
     if exp is None:
@@ -516,9 +525,10 @@ def check_pair(t, T, v, vi, out, C):
     if bool(got) != exp:
         out.append(
             violation(PROP, {"kind": "accepts_nonconforming" if got else "rejects_conforming", "cons": t[0],
-                             "term": label(t) if len(label(t)) < 40 else t[0], "vtype": type(v).__name__},
+                             "term": label(t) if len(label(t)) < 40 else t[0], "vtype": type(v).__name__,
+                             "history": "fresh" if after is None else "after_a_value_of_the_same_class"},
                       {"term": label(t), "value": repr(v)[:100], "expected": exp, "got": got},
-                      {"term": t, "vi": vi})
+                      {"term": t, "vi": vi, "after": after})
         )
     else:
         C.inc("traces_validated_against_impl")
@@ -530,7 +540,14 @@ def run_case(case):
     vals = values_for(t)
     out = []
     C = Counter()
-    check_pair(t, T, vals[case["vi"]], case["vi"], out, C)
+    if case.get("after") is not None:
+        from spec_classes.utils.type_checking import check_type
+
+        try:
+            check_type(vals[case["after"]], T)
+        except Exception:
+            pass
+    check_pair(t, T, vals[case["vi"]], case["vi"], out, C, case.get("after"))
     return out
 
 
@@ -551,6 +568,20 @@ def work(chunk):
             before = len(out)
             check_pair(t, T, v, vi, out, C)
             C.inc("evaluations")
+        if "Or[" in label(t) or t[0] == "Or":
+            # the verdict for a value may not depend on what was checked before: every ordered pair of values of the
+            # same runtime class (one may match one alternative, the other only another) against the same annotation
+            from spec_classes.utils.type_checking import check_type
+
+            for i, j in itertools.permutations(range(len(vals)), 2):
+                if type(vals[i]) is not type(vals[j]):
+                    continue
+                try:
+                    check_type(vals[i], T)
+                except Exception:
+                    pass
+                check_pair(t, T, vals[j], j, out, C, after=i)
+                C.inc("evaluations")
         for v in out:
             C.viol(v)
         # non-trivial: the term has both accepted and rejected values in its pool
